@@ -195,6 +195,23 @@ Proof.
   rewrite (arr_passes_grid eps epsr n (rows_of n tri) _ He Her (rows_of_og n) k _ _ v1 _ Hv).
   reflexivity.
 Qed.
+
+Theorem eps_irrelevant_on_grid_ref_sec rt eps epsr k n :
+  0 <= eps < g -> 0 <= epsr < g -> lapjv_ref rt eps epsr k n tri = lapjv_ref rt 0 0 k n tri.
+Proof.
+  intros He Her. unfold lapjv_ref.
+  pose proof (reduction_transfer_og rt n (rows_of n tri) (jflat_of (rows_of n tri)) (x_init n (min_i n tri))
+                (one_rows n (min_i n tri)) (rows_of_og n) (repeat (Fin 0) n) (v_init n tri)) as Hv1.
+  destruct (reduction_transfer rt n (rows_of n tri) (jflat_of (rows_of n tri)) (x_init n (min_i n tri))
+              (one_rows n (min_i n tri)) (repeat (Fin 0) n) (v_init n tri)) as [u1 v1].
+  cbn [snd] in Hv1.
+  assert (Hv : ogl v1).
+  { apply Hv1; [|apply v_init_og]. apply Forall_forall. intros e He'. apply repeat_spec in He'. subst.
+    cbn. apply Z.divide_0_r. }
+  destruct (free_rows n (min_i n tri)) as [|f0 fr]; [reflexivity|].
+  rewrite (arr_passes_grid eps epsr n (rows_of n tri) _ He Her (rows_of_og n) k _ _ v1 _ Hv).
+  reflexivity.
+Qed.
 End Grid.
 
 Theorem eps_irrelevant_on_grid : forall g rt eps epsr k n tri,
@@ -210,4 +227,11 @@ Example grid_example :
   (2 ^ 30 | t_c t).
 Proof.
   intros t [<-|[<-|[<-|[<-|[]]]]]; unfold t_c; cbn [snd]; try (apply Z.divide_factor_r); apply Z.divide_0_r.
+Qed.
+
+Theorem eps_irrelevant_on_grid_ref : forall g rt eps epsr k n tri,
+  0 <= eps < g -> 0 <= epsr < g -> (forall t, In t tri -> (g | t_c t)) ->
+  lapjv_ref rt eps epsr k n tri = lapjv_ref rt 0 0 k n tri.
+Proof.
+  intros g rt eps epsr k n tri He Her Ht. apply (eps_irrelevant_on_grid_ref_sec g); auto. lia.
 Qed.
